@@ -39,3 +39,17 @@ func (r *Rng) Bytes(n int) []byte {
 }
 func (r *Rng) Pick(xs []int) int { return xs[r.Intn(len(xs))] }
 func (r *Rng) Fork() *Rng        { return NewRng(r.U64()) }
+
+// numeric fields: a quarter of the draws are boundary values of the width (0, 1, the sign bit, all ones, ...)
+func (r *Rng) U16e() uint16 {
+	if r.Chance(1, 4) {
+		return uint16(r.Pick([]int{0, 0, 1, 2, 0x7f, 0x80, 0xff, 0x100, 0x3fff, 0x4000, 0x7fff, 0x8000, 0x8001, 0xfffe, 0xffff}))
+	}
+	return uint16(r.Intn(65536))
+}
+func (r *Rng) U8e() uint8 {
+	if r.Chance(1, 4) {
+		return uint8(r.Pick([]int{0, 0, 1, 2, 0x0f, 0x10, 0x7f, 0x80, 0xfe, 0xff}))
+	}
+	return uint8(r.Intn(256))
+}
